@@ -228,6 +228,7 @@ func runFollow(c *scase) (out outcome) {
 	}
 	cl := newScriptClient(w, c.attempts, true)
 	cl.setTarget(f.upTo)
+	cl.noRecorder = true
 	n := len(others(c.attempts[0]))
 	fc := &followClient{scriptClient: cl, in: f}
 	var nodes []string
@@ -317,13 +318,33 @@ loop:
 	var after []*common.Beacon
 	dump := "None"
 	if created {
-		st, err := boltdb.NewBoltStore(context.Background(), quietLog, cfg.DBFolder(w.beaconID))
-		if err != nil {
-			out.err = err
-			return
+		// the call has returned: the database must be closed. bbolt would wait for the file lock
+		// for ever, so open it on the side with a deadline.
+		type opened struct {
+			st  chain.Store
+			err error
 		}
-		after, _ = scan(context.Background(), st)
-		_ = st.Close()
+		och := make(chan opened, 1)
+		go func() {
+			st, err := boltdb.NewBoltStore(context.Background(), quietLog, cfg.DBFolder(w.beaconID))
+			och <- opened{st, err}
+		}()
+		select {
+		case o := <-och:
+			if o.err != nil {
+				out.err = o.err
+				return
+			}
+			after, _ = scan(context.Background(), o.st)
+			_ = o.st.Close()
+		case <-time.After(4 * time.Second):
+			m.fail("follow-leaves-database-open", "StartFollowChain returned but its database file is still locked")
+			go func() {
+				if o := <-och; o.st != nil {
+					_ = o.st.Close()
+				}
+			}()
+		}
 		var ds []string
 		for _, b := range after {
 			sig := "[]"
